@@ -213,7 +213,7 @@ PROPS = {
         trusted=REPL_TRUSTED, assumptions=["numeric fields below 2^40"],
     ),
     "C01": dict(
-        theorems=["HC.C01.live_refinement", "HC.C01.step_refines", "HC.C01.created", "HC.C01.created_refines",
+        theorems=["HC.C01.live_refinement", "HC.C01.step_refines", "HC.C01.created", "HC.C01.created_refines", "HC.C01.reopen_refines",
                   "HC.C01.entry_reopen", "HC.C01.header_reopen", "HC.C01.frame_reopen", "HC.C01.held_after", "HC.C01.refines_partial"],
         bridge_modules=["HC.Bridge.Oplog", "HC.Bridge.Stores"], bridging=OPLOG_BRIDGE + STORES_BRIDGE,
         runs=_c01_runs,
